@@ -1,6 +1,8 @@
 package main
 
 import (
+	"path/filepath"
+	"regexp"
 	"fmt"
 	"go/types"
 	"os"
@@ -24,6 +26,8 @@ type Program struct {
 	Dir   string
 	MutableGlobals map[*ssa.Global]bool // package-level variables assigned outside package initialisation
 	ErrGlobals     map[*ssa.Global]bool // package-level variables initialised with errors.New / fmt.Errorf
+	WrittenFields  map[string]bool      // "<type key>.<field>": some code (outside the initialisation of a fresh object) may write the field
+	writtenNames   map[string]bool      // field names that appear in a write position somewhere in the repository's sources (syntactic)
 }
 
 func loadProgram(dir string, patterns []string) (*Program, error) {
@@ -97,6 +101,7 @@ func loadProgram(dir string, patterns []string) (*Program, error) {
 			}
 		}
 	}
+	P.computeWrittenFields(prog)
 	// A-INIT: a package-level variable that is only assigned during package initialisation is a constant
 	P.MutableGlobals = map[*ssa.Global]bool{}
 	for fn := range ssautil.AllFunctions(prog) {
@@ -219,4 +224,165 @@ func (P *Program) funcNamesLike(sub string) []string {
 	}
 	sort.Strings(r)
 	return r
+}
+
+// computeWrittenFields finds the struct fields that are never written after the object that holds them has been set up
+// (A-FINAL). A field counts as written if, in any function of the loaded program, a store goes through its address (unless
+// the base is an object allocated in that same function: composite literals and constructors), its address is used for
+// anything but loads and stores, or a whole struct of its type is stored through a pointer; and - for exported fields,
+// which packages that are not loaded could write - if its NAME appears in a write position (x.f = , x.f++, &x.f) in any
+// non-test source file of the repository.
+func (P *Program) computeWrittenFields(prog *ssa.Program) {
+	P.WrittenFields = map[string]bool{}
+	var markAll func(t types.Type, depth int)
+	markAll = func(t types.Type, depth int) {
+		if depth > 4 {
+			return
+		}
+		st, ok := types.Unalias(t).Underlying().(*types.Struct)
+		if !ok {
+			return
+		}
+		key := structKey(t)
+		for i := 0; i < st.NumFields(); i++ {
+			P.WrittenFields[key+"."+st.Field(i).Name()] = true
+			markAll(st.Field(i).Type(), depth+1)
+		}
+	}
+	freshBase := func(v ssa.Value) bool {
+		for depth := 0; depth < 6; depth++ {
+			switch x := v.(type) {
+			case *ssa.Alloc:
+				return true
+			case *ssa.FieldAddr:
+				v = x.X
+			case *ssa.IndexAddr:
+				v = x.X
+			default:
+				return false
+			}
+		}
+		return false
+	}
+	for fn := range ssautil.AllFunctions(prog) {
+		for _, b := range fn.Blocks {
+			for _, ins := range b.Instrs {
+				switch x := ins.(type) {
+				case *ssa.FieldAddr:
+					pt, ok := x.X.Type().Underlying().(*types.Pointer)
+					if !ok {
+						continue
+					}
+					st, ok := pt.Elem().Underlying().(*types.Struct)
+					if !ok {
+						continue
+					}
+					key := structKey(pt.Elem()) + "." + st.Field(x.Field).Name()
+					if x.Referrers() == nil {
+						continue
+					}
+					for _, r := range *x.Referrers() {
+						switch r := r.(type) {
+						case *ssa.Store:
+							if r.Addr == ssa.Value(x) {
+								if !freshBase(x.X) {
+									P.WrittenFields[key] = true
+								}
+								// a struct value stored into the field rewrites the fields of that struct too
+							} else {
+								P.WrittenFields[key] = true // the address itself is stored somewhere
+							}
+						case *ssa.UnOp, *ssa.DebugRef:
+						case *ssa.FieldAddr, *ssa.IndexAddr:
+							// address of a part of the field's value (a struct or array held by value): the part may be
+							// written through it
+							P.WrittenFields[key] = true
+						default:
+							P.WrittenFields[key] = true
+						}
+					}
+				case *ssa.Store:
+					if pt, ok := x.Addr.Type().Underlying().(*types.Pointer); ok {
+						if _, isStruct := pt.Elem().Underlying().(*types.Struct); isStruct && !freshBase(x.Addr) {
+							markAll(pt.Elem(), 0)
+						}
+					}
+				}
+			}
+		}
+	}
+}
+
+func structKey(t types.Type) string {
+	t = types.Unalias(t)
+	if _, ok := t.(*types.Named); ok {
+		return strings.ReplaceAll(typeKey(t), "|", "_")
+	}
+	return strings.ReplaceAll(typeKey(t.Underlying()), "|", "_")
+}
+
+var writePosRe = regexp.MustCompile(`\.([A-Z][A-Za-z0-9_]*)\s*(=[^=]|\+=|-=|\*=|/=|\|=|&=|\+\+|--)|&[A-Za-z_][A-Za-z0-9_.\[\]]*\.([A-Z][A-Za-z0-9_]*)\b`)
+
+// exportedNameWritten: the field name appears in a write position in some non-test source file of the repository.
+func (P *Program) exportedNameWritten(name string) bool {
+	if P.writtenNames == nil {
+		P.writtenNames = map[string]bool{}
+		filepath.WalkDir(P.Dir, func(path string, d os.DirEntry, err error) error {
+			if err != nil {
+				return nil
+			}
+			if d.IsDir() {
+				if n := d.Name(); n == ".git" || n == "vendor" || n == "node_modules" {
+					return filepath.SkipDir
+				}
+				return nil
+			}
+			if !strings.HasSuffix(path, ".go") || strings.HasSuffix(path, "_test.go") {
+				return nil
+			}
+			data, err := os.ReadFile(path)
+			if err != nil {
+				return nil
+			}
+			src := string(data)
+			for _, loc := range writePosRe.FindAllStringSubmatchIndex(src, -1) {
+				if loc[2] >= 0 {
+					P.writtenNames[src[loc[2]:loc[3]]] = true
+				}
+				if loc[6] >= 0 {
+					// &x.Name - unless it is the address of a composite literal of the type pkg.Name{...}
+					rest := strings.TrimLeft(src[loc[1]:], " \t")
+					if !strings.HasPrefix(rest, "{") {
+						P.writtenNames[src[loc[6]:loc[7]]] = true
+					}
+				}
+			}
+			return nil
+		})
+	}
+	return P.writtenNames[name]
+}
+
+// finalField: the field (component name F:<type>.<field>) is never written once its object exists.
+func (P *Program) finalField(structT types.Type, field int) bool {
+	st, ok := types.Unalias(structT).Underlying().(*types.Struct)
+	if !ok {
+		return false
+	}
+	f := st.Field(field)
+	// only fields of repository types, holding scalars, pointers, slices, maps, strings, interfaces or functions
+	if f.Pkg() == nil || !strings.HasPrefix(f.Pkg().Path(), modPath) {
+		return false
+	}
+	switch f.Type().Underlying().(type) {
+	case *types.Struct, *types.Array:
+		return false
+	}
+	if P.WrittenFields[structKey(structT)+"."+f.Name()] {
+		return false
+	}
+	if f.Exported() && P.exportedNameWritten(f.Name()) {
+		return false
+	}
+	return true
 }
